@@ -456,6 +456,71 @@ class _Req:
         self.app = app
 
 
+BATCH_PY_WITH_SQL = ['front_end/front_end.py', 'batch.py', 'driver/job.py', 'driver/main.py', 'driver/canceller.py',
+                     'driver/instance_collection/pool.py', 'driver/instance_collection/job_private.py', 'driver/instance_collection/base.py',
+                     'driver/instance.py', 'driver/billing_manager.py', 'inst_coll_config.py', 'utils.py', 'spec_writer.py', 'driver/driver.py']
+
+
+def static_sql_strings():
+    """every non-f-string literal of the batch python sources that is a complete SQL statement"""
+    import ast
+    import re
+    from harness import framework
+    out = []
+    for rel in BATCH_PY_WITH_SQL:
+        path = os.path.join(framework.repo_root(), 'batch', 'batch', rel)
+        tree = ast.parse(open(path, encoding='utf-8').read())
+        inside_f = set()
+        for node in ast.walk(tree):
+            if isinstance(node, ast.JoinedStr):
+                for ch in ast.walk(node):
+                    inside_f.add(id(ch))
+        for node in ast.walk(tree):
+            if isinstance(node, ast.Constant) and isinstance(node.value, str) and id(node) not in inside_f:
+                sq = node.value.strip()
+                if re.match(r'(SELECT|INSERT|UPDATE|DELETE|CALL|WITH)\b', sq) and re.search(r'\b(FROM|INTO|SET|CALL)\b', sq):
+                    out.append((f'{rel}:{node.lineno}', sq))
+    return out
+
+
+def run_static_selects(db, params_for):
+    """execute every static SELECT of the python sources against the (populated) database; returns (#run, #rows)"""
+    n = rows = 0
+    schema_errors = []
+    for where, sq in static_sql_strings():
+        if not sq.upper().startswith(('SELECT', 'WITH')):
+            continue
+        k = sq.count('%s')
+        try:
+            res = db.execute(sq, tuple(params_for(where, i) for i in range(k)))
+        except minisql.SchemaError as e:
+            schema_errors.append((where, str(e), sq))
+            continue
+        n += 1
+        rows += len(res[0])
+    # known defect of the repository (reported, not repaired here): the deprecated close_batch endpoint filters on `deleted`
+    # without joining `batches` -> MySQL error 1054 on every call
+    for where, msg, sq in schema_errors:
+        print(f'    SQL that does not fit the schema: {where}: {msg}')
+        assert 'NOT deleted' in sq and 'FROM job_groups\nLEFT JOIN LATERAL' in sq and 'batches' not in sq, (where, msg)
+    return n, rows
+
+
+async def _pool_queue_query(app, db):
+    """the f-string autoscaler query of Pool.regions_to_ready_cores_mcpu_from_estimated_job_queue, run through the REAL method
+    with a stand-in `self`"""
+    import types
+    from batch.driver.instance_collection.pool import Pool
+
+    class Sched:
+        async def _compute_fair_share(self, cores):
+            return {batchapp.USER: {'allocated_cores_mcpu': 16000}, 'nobody': {'allocated_cores_mcpu': 0}}
+    me = types.SimpleNamespace(autoscaler_loop_period_secs=15, max_new_instances_per_autoscaler_loop=10, worker_cores=16,
+                               scheduler=Sched(), job_queue_scheduling_window_secs=150, db=app['db'], name='standard',
+                               all_supported_regions=['us-central1'], app=app)
+    return await Pool.regions_to_ready_cores_mcpu_from_estimated_job_queue(me)
+
+
 async def _e2e():
     logging.disable(logging.CRITICAL)
     t = [1700000000.0]
@@ -499,13 +564,19 @@ async def _e2e():
     rv = await g.execute_and_fetchone('CALL schedule_job(%s, %s, %s, %s);', (bid, 1, 'att1', 'w1'))
     assert rv['rc'] == 0, rv
     await dj.mark_job_started(app, bid, 1, 'att1', inst, 5000, res)
+    n_sel, n_rows = run_static_selects(db, lambda where, i: ('standard' if 'pool.py' in where and i in (0, 2) else 1))
+    assert n_sel > 90 and n_rows > 20, (n_sel, n_rows)
+    ran += [f'{n_sel} static SELECT statements of the python sources executed on the populated database ({n_rows} rows)']
+    queue = await _pool_queue_query(app, db)
+    assert queue == [(['us-central1'], 1250)], queue        # jobs 4 (1000 mcpu) and 5 (250 mcpu) are Ready in pool 'standard'
+    ran += ['Pool.regions_to_ready_cores_mcpu_from_estimated_job_queue (f-string CTE/UNION/ROW_NUMBER query)']
     rv = await g.execute_and_fetchone('CALL mark_job_creating(%s, %s, %s, %s, %s);', (bid, 4, 'att4', 'jp1', 5100))
     assert rv['rc'] == 0
     await dj.mark_job_creating(app, bid, 5, 'att5', jp, 5200, res)
     await dj.unschedule_job(app, {'batch_id': bid, 'job_id': 5, 'attempt_id': 'att5', 'instance_name': 'jp1'})
     await g.execute_update('UPDATE attempts SET rollup_time = %s WHERE batch_id = %s AND job_id = %s AND attempt_id = %s', (7000, bid, 1, 'att1'))
-    await dj.mark_job_complete(app, bid, 1, 'att1', 0, 'w1', 'Success', {'x': 1}, 5000, 9000, 'completed', res, marked_job_started=True)
-    await dj.mark_job_complete(app, bid, 1, 'att1', 0, 'w1', 'Success', {'x': 1}, 5000, 9000, 'completed', res, marked_job_started=True)  # duplicate message
+    await dj.mark_job_complete(app, bid, 1, 'att1', 0, 'w1', 'Success', [0, 4000], 5000, 9000, 'completed', res, marked_job_started=True)
+    await dj.mark_job_complete(app, bid, 1, 'att1', 0, 'w1', 'Success', [0, 4000], 5000, 9000, 'completed', res, marked_job_started=True)  # duplicate message
     ran += ['driver.job.mark_job_started', 'mark_job_creating', 'unschedule_job', 'mark_job_complete', 'add_attempt_resources']
     await dm.check_resource_aggregation(g)
     await fe._cancel_job_group(app, bid, 1)
